@@ -40,7 +40,15 @@ def cases(draw, tier):
         if d.p(30):
             case['options']['display'] = case['options']['precision'] + d.int(0, 4)
         return case
-    return draw(gen.election_cases(tier=tier, equal_for_meek=True))
+    case = draw(gen.election_cases(tier=tier, equal_for_meek=True))
+    o = case['options']
+    if case['rule'] in ('wigm', 'meek', 'warren') and o.get('arithmetic', 'guarded') == 'guarded' and d.p(12):
+        # guard digits on display: figures below the comparison tolerance become visible in every rendering
+        p = o.get('precision', 18)
+        g = o.get('guard', p // 2 if case['rule'] != 'wigm' else None)
+        if isinstance(p, int) and isinstance(g, int) and g >= 1:
+            case['options'] = dict(o, display=p + d.int(1, g))
+    return case
 
 
 def strategy(tier):
